@@ -13,7 +13,7 @@ From Coq Require Import List NArith String Bool Lia Arith.
 From V Require Import Base.Util Base.Strings Base.Result Model.Registry Model.Settings Model.Subst
   Model.TypePath Model.Derives Model.Generate Model.Emit Model.Equal Model.WellFormed Model.Shape
   Model.Program Model.ProgramSkel Model.ProgramEmit
-  Checkers.Parse Checkers.Sem Model.Unparse Corr.RunTG Corr.CheckTG Corr.RunC05
+  Checkers.Parse Checkers.Sem Model.Unparse Corr.RunTG Corr.CheckTG Corr.RunC05 Corr.RunC05Emit
   Proofs.GenProofs Proofs.GenTotal Proofs.ClosedProofs Proofs.FidelityBase Proofs.FidelityGen
   Proofs.ParseTy Proofs.ParseItem Proofs.ParseMod Proofs.ParseClosed
   Proofs.SourceRoundTrip Proofs.SourceSkeleton Proofs.SourceReading Proofs.RegistryOfSound
@@ -672,31 +672,33 @@ End RoundTrip.
 
 (** * 5. the instantiation of [expected_item] used by the checker [prop_source_roundtrip]
 
-    [expected_item] only depends on the values of its [order_path] argument *)
+    [expected_item] looks at [order_path lsb] only for bit sequences of order [lsb] *)
 Section OrderExt.
   Variable defs : list sdef.
   Variable root : string.
   Variable alloc : list string.
   Variables cpt bts : list string * bool.
   Variables o1 o2 : bool -> pty.
-  Hypothesis Ho : forall lsb, o1 lsb = o2 lsb.
+  Let Ho (lsb : bool) : Prop := o1 lsb = o2 lsb.
 
   Let p1 := src_pty defs root alloc cpt bts o1.
   Let p2 := src_pty defs root alloc cpt bts o2.
 
-  Lemma src_pty_ext_n : forall n t, (src_size t <= n)%nat -> p1 t = p2 t.
+  Lemma src_pty_ext_n : forall n t, (src_size t <= n)%nat -> (forall lsb, mentions_order lsb t = true -> Ho lsb) -> p1 t = p2 t.
   Proof.
-    induction n as [|n IH]; intros t Hsz; [destruct t; cbn [src_size] in Hsz; lia|].
+    induction n as [|n IH]; intros t Hsz Hm; [destruct t; cbn [src_size] in Hsz; lia|].
     unfold p1, p2.
     destruct t as [i|d' xs|x|x|len x|xs|p|x|x|x|a b|a b|x|x|x|st lsb]; cbn [src_size] in Hsz; cbn [src_pty];
-      fold p1 p2; try reflexivity;
-      try (rewrite (IH x) by lia; reflexivity);
-      try (rewrite (IH a), (IH b) by lia; reflexivity).
+      fold p1 p2; cbn [mentions_order] in Hm; try reflexivity;
+      try (rewrite (IH x) by (lia || exact Hm); reflexivity);
+      try (rewrite (IH a), (IH b) by (lia || (intros l0 Hx; apply Hm; rewrite Hx, ?orb_true_r; reflexivity));
+           reflexivity).
     - (* application *)
       change (S (sizes xs) <= S n)%nat in Hsz.
       assert (Hx : forall x, In x xs -> p1 x = p2 x).
-      { intros x Hx. apply IH. pose proof (sizes_In _ _ Hx). lia. }
-      clear Hsz. cbv zeta. f_equal. f_equal. f_equal. f_equal.
+      { intros x Hx. apply IH; [pose proof (sizes_In _ _ Hx); lia|].
+        intros l0 Hmx. apply Hm. apply existsb_exists. exists x. split; assumption. }
+      clear Hsz Hm. cbv zeta. f_equal. f_equal. f_equal. f_equal.
       generalize (match nth_error defs d' with Some sd => map snd (sd_params sd) | None => [] end).
       induction xs as [|x xs IHxs]; intros sk; [destruct sk; reflexivity|].
       assert (E : p1 x = p2 x) by (apply Hx; left; reflexivity).
@@ -705,36 +707,51 @@ Section OrderExt.
     - (* tuple *)
       change (S (sizes xs) <= S n)%nat in Hsz.
       assert (Hx : forall x, In x xs -> p1 x = p2 x).
-      { intros x Hx. apply IH. pose proof (sizes_In _ _ Hx). lia. }
-      clear Hsz. f_equal.
+      { intros x Hx. apply IH; [pose proof (sizes_In _ _ Hx); lia|].
+        intros l0 Hmx. apply Hm. apply existsb_exists. exists x. split; assumption. }
+      clear Hsz Hm. f_equal.
       induction xs as [|x xs IHxs]; [reflexivity|].
       assert (E : p1 x = p2 x) by (apply Hx; left; reflexivity).
       assert (Hx' : forall y, In y xs -> p1 y = p2 y) by (intros y Hy; apply Hx; right; exact Hy).
       cbn. rewrite E, (IHxs Hx'). reflexivity.
-    - (* bit sequence *) rewrite Ho. reflexivity.
+    - (* bit sequence *) unfold Ho in Hm. rewrite (Hm lsb (Bool.eqb_reflx lsb)). reflexivity.
   Qed.
 
-  Lemma src_pty_ext t : p1 t = p2 t.
+  Lemma src_pty_ext t : (forall lsb, mentions_order lsb t = true -> Ho lsb) -> p1 t = p2 t.
   Proof. apply (src_pty_ext_n (src_size t)). apply le_n. Qed.
 
   Lemma field_pty_ext f :
+    (forall lsb, mentions_order lsb (sf_ty f) = true -> Ho lsb) ->
     Program.field_pty defs root alloc cpt bts o1 f = Program.field_pty defs root alloc cpt bts o2 f.
   Proof.
-    unfold Program.field_pty. fold p1 p2.
-    destruct (sf_ty f) as [i|d' xs|x|x|len x|xs|p|x|x|x|a b|a b|x|x|x|st lsb]; rewrite ?src_pty_ext; try reflexivity.
-    destruct x; rewrite ?src_pty_ext; reflexivity.
+    intros Hm. unfold Program.field_pty. fold p1 p2.
+    destruct (sf_ty f) as [i|d' xs|x|x|len x|xs|p|x|x|x|a b|a b|x|x|x|st lsb];
+      try (rewrite (src_pty_ext _ Hm); reflexivity).
+    - (* Compact<x>: the inner type *) rewrite (src_pty_ext x Hm). reflexivity.
+    - destruct x as [i|d' xs|x|x|len x|xs|p|x|x|x|a b|a b|x|x|x|st lsb];
+        try (rewrite (src_pty_ext _ Hm); reflexivity).
+      (* Cow<Compact<x>> *) rewrite (src_pty_ext x Hm). reflexivity.
   Qed.
 
   Lemma expected_fields_ext codec pub fs :
+    (forall f, In f fs -> forall lsb, mentions_order lsb (sf_ty f) = true -> Ho lsb) ->
     expected_fields defs root alloc cpt bts o1 codec pub fs = expected_fields defs root alloc cpt bts o2 codec pub fs.
-  Proof. unfold expected_fields. apply map_ext. intros f. rewrite field_pty_ext. reflexivity. Qed.
+  Proof.
+    intros Hm. unfold expected_fields. apply map_ext_in. intros f Hf. rewrite (field_pty_ext f (Hm f Hf)). reflexivity.
+  Qed.
 
   Lemma expected_item_ext codec d :
+    (forall lsb, def_mentions_order d lsb = true -> Ho lsb) ->
     expected_item defs root alloc cpt bts o1 codec d = expected_item defs root alloc cpt bts o2 codec d.
   Proof.
-    unfold expected_item. destruct (sd_body d) as [fs|vs].
-    - rewrite expected_fields_ext. reflexivity.
-    - cbv zeta. f_equal. f_equal. apply map_ext. intros v. rewrite expected_fields_ext. reflexivity.
+    intros Hm.
+    assert (Hf : forall f, In f (def_sfields d) -> forall lsb, mentions_order lsb (sf_ty f) = true -> Ho lsb).
+    { intros f Hin lsb Hmf. apply Hm. unfold def_mentions_order. apply existsb_exists. exists f. split; assumption. }
+    clear Hm. unfold expected_item, def_sfields in *. destruct (sd_body d) as [fs|vs].
+    - rewrite (expected_fields_ext codec true fs Hf). reflexivity.
+    - cbv zeta. f_equal. f_equal. apply map_ext_in. intros v Hv.
+      rewrite (expected_fields_ext codec false (snd v)); [reflexivity|].
+      intros f Hin. apply Hf. apply in_flat_map. exists v. split; assumption.
   Qed.
 End OrderExt.
 
@@ -742,10 +759,11 @@ Lemma segs_lead_opt o :
   segs_lead_of (opt_toks o) = match o with Some t => segs_lead_of t | None => ([], false) end.
 Proof. destruct o; reflexivity. Qed.
 
-(** with the bit-order markers substituted as the harness does, [expected_of_source] is the
-    checker's [expected_of] *)
+(** with the bit-order markers substituted as the harness does (needed only for the orders of the
+    bit sequences the definition mentions), [expected_of_source] is the checker's [expected_of] *)
 Theorem expected_of_source_settings defs s otp d :
-  (forall lsb, tpath_pty (ProgramSkel.alloc_segs s) (otp lsb) = bits_order_pty lsb) ->
+  (forall lsb, def_mentions_order d lsb = true ->
+               tpath_pty (ProgramSkel.alloc_segs s) (otp lsb) = bits_order_pty lsb) ->
   expected_of_source defs s otp d = expected_of_settings defs s d.
 Proof.
   intros H. unfold expected_of_source, expected_of_settings. rewrite !segs_lead_opt.
@@ -1024,13 +1042,14 @@ Theorem prop_source_roundtrip_of_model (c : c05_case) (otp : bool -> tpath) teq 
   RegistryOf defs L r ->
   (forall sd, In sd defs -> def_okb s sd = true) ->
   prelude_okb s = true -> order_resolves s otp -> render_okb s defs = true ->
-  (forall lsb, tpath_pty (ProgramSkel.alloc_segs s) (otp lsb) = bits_order_pty lsb) ->
   (forall d1 d2 sd1 sd2,
      nth_error defs d1 = Some sd1 -> nth_error defs d2 = Some sd2 -> sd_path sd1 = sd_path sd2 -> d1 = d2) ->
   (forall k sd, nth_error defs k = Some sd -> cf_def c k sd = true ->
      forallb (fun f => no_cow_cow (sf_ty f)) (def_sfields sd) = true /\ box_names_okb defs sd = true /\
      forallb (fun f => apps_okb defs (sf_ty f) && field_conv_okb f) (def_sfields sd) = true /\
      (forall lsb, sd_path sd <> order_path_of lsb) /\
+     (forall lsb, def_mentions_order sd lsb = true ->
+                  tpath_pty (ProgramSkel.alloc_segs s) (otp lsb) = bits_order_pty lsb) /\
      (exists id args, L id = Some (SApp k args)) /\
      (forall id args, L id = Some (SApp k args) ->
         (exists args', In args' (insts_of c k) /\ args = map canon args') /\
@@ -1039,13 +1058,13 @@ Theorem prop_source_roundtrip_of_model (c : c05_case) (otp : bool -> tpath) teq 
   tg_gen (c5_tg c) = OOk toks ->
   prop_source_roundtrip c = true.
 Proof.
-  intros defs r s L HR Hdefs Hprel Hord Hrender Hbits Hpaths Hper Hgen Hemit Hplain Hobs.
+  intros defs r s L HR Hdefs Hprel Hord Hrender Hpaths Hper Hgen Hemit Hplain Hobs.
   unfold prop_source_roundtrip. rewrite Hobs.
   pose proof (emit_parses s m toks Hemit Hplain) as Hparse. fold s in Hparse. rewrite Hparse.
   apply forallb_forall. intros [k sd] Hin. cbn [fst snd].
   destruct (cf_def c k sd) eqn:Ecf; [|reflexivity].
   unfold defs_indexed in Hin. apply combine_seq_nth in Hin as [_ Hnth]. rewrite Nat.sub_0_r in Hnth.
-  destruct (Hper k sd Hnth Ecf) as (Hfrag & Hbox & Hconv & Hnom & (id & args & Hl) & Hinst).
+  destruct (Hper k sd Hnth Ecf) as (Hfrag & Hbox & Hconv & Hnom & Hbits & (id & args & Hl) & Hinst).
   assert (Hinst' : forall id0 args0, L id0 = Some (SApp k args0) ->
             instantiation_cf defs sd args0 = true /\ map canon args0 = args0 /\ compact_fields_okb defs sd args0 = true).
   { intros id0 args0 Hl0. destruct (Hinst id0 args0 Hl0) as ((args' & Hin0 & ->) & Hco).
@@ -1060,7 +1079,150 @@ Qed.
 
 (** the harness substitutes the bit-order markers by [::bits::order::{Lsb0,Msb0}]: the reading
     hypothesis of [expected_of_source_settings] / [prop_source_roundtrip_of_model] *)
-Lemma bits_order_reading (otp : bool -> tpath) :
-  (forall lsb, otp lsb = TPath (abs_path ["bits"; "order"; if lsb then "Lsb0" else "Msb0"]) []) ->
-  forall asegs lsb, tpath_pty asegs (otp lsb) = bits_order_pty lsb.
-Proof. intros H asegs lsb. rewrite H. destruct lsb; reflexivity. Qed.
+Lemma bits_order_reading (otp : bool -> tpath) lsb :
+  otp lsb = TPath (abs_path ["bits"; "order"; if lsb then "Lsb0" else "Msb0"]) [] ->
+  forall asegs, tpath_pty asegs (otp lsb) = bits_order_pty lsb.
+Proof. intros H asegs. rewrite H. destruct lsb; reflexivity. Qed.
+
+(** * 8. the hypotheses as one boolean ([hyp_emission_theorem], Corr/RunC05Emit.v) *)
+Lemma nth_combine_seq {A} (l : list A) : forall start k x,
+  nth_error l k = Some x -> In ((start + k)%nat, x) (combine (seq start (List.length l)) l).
+Proof.
+  induction l as [|a l IH]; intros start k x H; [destruct k; discriminate|].
+  cbn [List.length seq combine]. destruct k as [|k]; cbn [nth_error] in H.
+  - inversion H; subst. left. rewrite Nat.add_0_r. reflexivity.
+  - right. replace (start + S k)%nat with (S start + k)%nat by lia. apply IH. exact H.
+Qed.
+
+Lemma paths_nodupb_nth : forall (l : list (list string)),
+  paths_nodupb l = true -> forall i j p, nth_error l i = Some p -> nth_error l j = Some p -> i = j.
+Proof.
+  induction l as [|q l IH]; intros H i j p Hi Hj; [destruct i; discriminate|].
+  cbn [paths_nodupb] in H. apply andb_prop in H as [Hq Hl]. apply negb_true_iff in Hq.
+  assert (Hnot : forall n, nth_error l n = Some q -> False).
+  { intros n Hn. apply nth_error_In in Hn.
+    assert (E : existsb (list_eqb String.eqb q) l = true).
+    { apply existsb_exists. exists q. split; [exact Hn|]. apply list_eqb_refl. apply String.eqb_refl. }
+    congruence. }
+  destruct i as [|i], j as [|j]; cbn [nth_error] in Hi, Hj.
+  - reflexivity.
+  - exfalso. inversion Hi; subst. eapply Hnot; eauto.
+  - exfalso. inversion Hj; subst. eapply Hnot; eauto.
+  - f_equal. eapply IH; eauto.
+Qed.
+
+Lemma list_eqb_str_neq p q : negb (list_eqb String.eqb p q) = true -> p <> q.
+Proof.
+  intros H E. subst q. rewrite (list_eqb_refl String.eqb String.eqb_refl) in H. discriminate.
+Qed.
+
+Lemma label_at_In labels id x : label_at labels id = Some x -> In (Some x) labels.
+Proof.
+  unfold label_at. destruct (nth_error labels (N.to_nat id)) as [o|] eqn:E; [|discriminate].
+  intros ->. eapply nth_error_In; eauto.
+Qed.
+
+Lemma In_label_at labels x : In (Some x) labels -> exists id, label_at labels id = Some x.
+Proof.
+  intros H. apply In_nth_error in H as (n & Hn). exists (N.of_nat n).
+  unfold label_at. rewrite Nat2N.id, Hn. reflexivity.
+Qed.
+
+Lemma order_subst_b_sound s lsb :
+  order_subst_b s lsb = true ->
+  forall asegs, tpath_pty asegs (order_tp_of s lsb) = bits_order_pty lsb.
+Proof.
+  unfold order_subst_b. intros H. apply bits_order_reading.
+  destruct (order_tp_of s lsb) as [|toks [|x l]| | | | | |]; try discriminate.
+  apply (list_eqb_sound String.eqb) in H; [|intros a b; apply String.eqb_eq]. rewrite H. reflexivity.
+Qed.
+
+Lemma def_emission_okb_sound c k sd :
+  def_emission_okb c k sd = true ->
+  let defs := pg_defs (c5_prog c) in
+  let s := settings_of (tg_spec (c5_tg c)) in
+  let L := label_at (c5_labels c) in
+  forallb (fun f => no_cow_cow (sf_ty f)) (def_sfields sd) = true /\ box_names_okb defs sd = true /\
+  forallb (fun f => apps_okb defs (sf_ty f) && field_conv_okb f) (def_sfields sd) = true /\
+  (forall lsb, sd_path sd <> order_path_of lsb) /\
+  (forall lsb, def_mentions_order sd lsb = true ->
+               tpath_pty (ProgramSkel.alloc_segs s) (order_tp_of s lsb) = bits_order_pty lsb) /\
+  (exists id args, L id = Some (SApp k args)) /\
+  (forall id args, L id = Some (SApp k args) ->
+     (exists args', In args' (insts_of c k) /\ args = map canon args') /\
+     compact_fields_okb defs sd args = true).
+Proof.
+  unfold def_emission_okb. intros H. cbv zeta in H |- *.
+  apply andb_prop in H as [H Hall]. apply andb_prop in H as [H Hex]. apply andb_prop in H as [H Hbits].
+  apply andb_prop in H as [H Hm0]. apply andb_prop in H as [H Hm1]. apply andb_prop in H as [H Hconv].
+  apply andb_prop in H as [Hfrag Hbox].
+  split; [exact Hfrag|]. split; [exact Hbox|]. split; [exact Hconv|]. split; [|split; [|split]].
+  - intros [|]; apply list_eqb_str_neq; assumption.
+  - intros lsb Hm. rewrite forallb_forall in Hbits.
+    assert (Hin : In lsb [true; false]) by (destruct lsb; cbn; auto).
+    specialize (Hbits lsb Hin). rewrite Hm in Hbits. cbn [negb orb] in Hbits.
+    apply order_subst_b_sound. exact Hbits.
+  - apply existsb_exists in Hex as (o & Hin & Ho).
+    destruct o as [[i|k' a|x|x|len x|xs|p|x|x|x|a b|a b|x|x|x|st lsb]|]; try discriminate Ho.
+    apply Nat.eqb_eq in Ho. subst k'. destruct (In_label_at _ _ Hin) as (id & Hid). exists id, a. exact Hid.
+  - intros id args Hl. apply label_at_In in Hl. rewrite forallb_forall in Hall. specialize (Hall _ Hl).
+    cbv beta iota in Hall. rewrite Nat.eqb_refl in Hall. apply andb_prop in Hall as [He Hco].
+    split; [|exact Hco]. apply existsb_exists in He as (args' & Hin' & He).
+    apply src_eqb_sound in He. exists args'. split; [exact Hin'|]. congruence.
+Qed.
+
+Lemma emission_static_okb_sound c :
+  emission_static_okb c = true ->
+  let defs := pg_defs (c5_prog c) in
+  let r := tg_reg (c5_tg c) in
+  let s := settings_of (tg_spec (c5_tg c)) in
+  let L := label_at (c5_labels c) in
+  RegistryOf defs L r /\ (forall sd, In sd defs -> def_okb s sd = true) /\
+  prelude_okb s = true /\ order_resolves s (order_tp_of s) /\ render_okb s defs = true /\
+  (forall d1 d2 sd1 sd2,
+     nth_error defs d1 = Some sd1 -> nth_error defs d2 = Some sd2 -> sd_path sd1 = sd_path sd2 -> d1 = d2) /\
+  (forall k sd, nth_error defs k = Some sd -> cf_def c k sd = true -> def_emission_okb c k sd = true).
+Proof.
+  unfold emission_static_okb. intros H. cbv zeta in H |- *.
+  apply andb_prop in H as [H Hper]. apply andb_prop in H as [H Hnd]. apply andb_prop in H as [H Hrender].
+  apply andb_prop in H as [H Hord]. apply andb_prop in H as [H Hprel]. apply andb_prop in H as [H Hdefs].
+  apply andb_prop in H as [Hreg Hnodocs].
+  split; [apply registry_ofb_sound; assumption|].
+  split; [rewrite forallb_forall in Hdefs; exact Hdefs|].
+  split; [exact Hprel|]. split; [apply order_resolvesb_sound; exact Hord|]. split; [exact Hrender|]. split.
+  - intros d1 d2 sd1 sd2 H1 H2 E.
+    apply (paths_nodupb_nth _ Hnd d1 d2 (sd_path sd1)).
+    + apply map_nth_error. exact H1.
+    + rewrite E. apply map_nth_error. exact H2.
+  - intros k sd Hn Hcf. rewrite forallb_forall in Hper.
+    specialize (Hper (k, sd)). cbn [fst snd] in Hper. rewrite Hcf in Hper. apply Hper.
+    unfold defs_indexed. apply (nth_combine_seq _ 0%nat k sd Hn).
+Qed.
+
+(** on every case on which the boolean holds and the observed outcome of generation is the model's
+    ([corr_gen]), the checker [prop_source_roundtrip] accepts *)
+Theorem hyp_emission_sound c :
+  hyp_emission_theorem c = true -> corr_gen (c5_tg c) = true -> prop_source_roundtrip c = true.
+Proof.
+  unfold hyp_emission_theorem, corr_gen, model_gen, model_items.
+  set (r := tg_reg (c5_tg c)). set (s := settings_of (tg_spec (c5_tg c))).
+  intros Hh Hcorr.
+  assert (Hnot : forall o : obs tokens,
+            (forall t, o <> OOk t) -> obs_eqb tokens_eqb o (tg_gen (c5_tg c)) = true ->
+            prop_source_roundtrip c = true).
+  { intros o Ho Heq. unfold prop_source_roundtrip. destruct (tg_gen (c5_tg c)) as [t| |]; try reflexivity.
+    destruct o as [t'| |]; try discriminate Heq. exfalso. apply (Ho t'). reflexivity. }
+  destruct (generate r s (Equal.types_equal r)) as [m|e|msg] eqn:Eg; cbn [bind] in Hcorr.
+  - destruct (emit_module s m) as [toks|e|msg] eqn:Ee.
+    + apply andb_prop in Hh as [Hplain Hstatic]. cbn [obs_of] in Hcorr.
+      destruct (tg_gen (c5_tg c)) as [t| |] eqn:Eo; try discriminate Hcorr. cbn [obs_eqb] in Hcorr.
+      apply (list_eqb_sound String.eqb) in Hcorr; [|intros a b; apply String.eqb_eq]. subst t.
+      destruct (emission_static_okb_sound c Hstatic) as (HR & Hdefs & Hprel & Hord & Hrender & Hpaths & Hper).
+      apply (prop_source_roundtrip_of_model c (order_tp_of s) (Equal.types_equal r) m toks HR Hdefs Hprel Hord
+               Hrender Hpaths); try assumption.
+      intros k sd Hn Hcf. apply (def_emission_okb_sound c k sd (Hper k sd Hn Hcf)).
+    + apply (Hnot (obs_of (Err e))); [|exact Hcorr]. intros t. destruct e; discriminate.
+    + apply (Hnot (obs_of (Panic msg))); [|exact Hcorr]. intros t. discriminate.
+  - apply (Hnot (obs_of (Err e))); [|exact Hcorr]. intros t. destruct e; discriminate.
+  - apply (Hnot (obs_of (Panic msg))); [|exact Hcorr]. intros t. discriminate.
+Qed.
